@@ -87,7 +87,7 @@ func genC10(run *Run) []*Spec {
 	}
 	n := run.N(450, 8000)
 	for i := 0; i < n; i++ {
-		sp := &Spec{Route: "forward", NHosts: 2, RouteGlobalMs: (3+r.Intn(2))*slot + 20, MaxRetries: r.Intn(4), RetryOn: r.Intn(4) != 0, NumRetries: r.Intn(4)}
+		sp := &Spec{Route: "forward", NHosts: 2, RouteGlobalMs: (3+r.Intn(2))*slot + 30, MaxRetries: r.Intn(4), RetryOn: r.Intn(4) != 0, NumRetries: r.Intn(4)}
 		switch r.Intn(8) {
 		case 0:
 			sp.Oneway = true
@@ -95,7 +95,7 @@ func genC10(run *Run) []*Spec {
 			sp.HasData = true
 		}
 		if r.Intn(3) == 0 {
-			sp.RouteTryMs = slot + 20
+			sp.RouteTryMs = slot + 15
 		}
 		if r.Intn(4) == 0 {
 			sp.MaxRequests = 1 + r.Intn(3) // with 1, a retry on top of a leaked stream would be refused with a spurious overflow
@@ -132,7 +132,7 @@ func genC10(run *Run) []*Spec {
 			}
 			t += slot
 			if r.Intn(4) == 0 {
-				t += 20
+				t += slot
 			}
 		}
 		if needHandler {
